@@ -160,7 +160,10 @@ func runMarshalEnc(t reflect.Type, v reflect.Value, enc int, k *MarshalCase) (ve
 	if d := model.DiffOpt(want, got, model.EqOpts{UnorderedStructs: binary || enc == 5 || enc == 7 || enc == 9}); d != "" {
 		return "the output does not denote the value's Ion image: " + d
 	}
-	// (2) Unmarshal returns an equal value
+	// (2) Unmarshal returns an equal value (types that write themselves have no inverse)
+	if typeHasMarshaler(t, 0) {
+		return ""
+	}
 	if stream == 1 {
 		back := reflect.New(t)
 		// every way in has to agree: rotate through the entry points
@@ -283,7 +286,7 @@ func runC16(c *Ctx) {
 		}
 	})
 	// values in which one pointer is reachable twice (no cycle): each occurrence is just a value
-	shared := sharedPointerValues()
+	shared := append(sharedPointerValues(), marshalerValues()...)
 	c.Parallel(len(shared), func(w, i int) {
 		v := reflect.ValueOf(shared[i])
 		t := v.Type()
